@@ -24,7 +24,7 @@ def build(ctx, alt=False):
     for i, src in enumerate(["stdlib/strtol.c", "stdlib/strtoul.c", "stdlib/strtoll.c", "stdlib/strtoull.c", "inttypes/strtoimax.c", "inttypes/strtoumax.c",
                              "stdlib/atol.c", "stdlib/qsort.c", "stdlib/bsearch.c", "stdlib/rand.c"]):
         o = os.path.join(ctx.work, "libc%s%d.o" % ("_alt" if alt else "", i))
-        ctx.sh(["gcc", "-std=c11", "-D_POSIX_C_SOURCE=200809L", "-g"] + core.opt_flags(alt) + ["-fsanitize=address", "-fno-omit-frame-pointer", "-w", "-I" + R] + flags + ["-c", os.path.join(R, "compat/libc", src), "-o", o], timeout=300)
+        ctx.sh(["gcc", "-std=c11", "-D_POSIX_C_SOURCE=200809L", "-g"] + core.opt_flags(alt) + core.cov_flags() + ["-fsanitize=address", "-fno-omit-frame-pointer", "-w", "-I" + R] + flags + ["-c", os.path.join(R, "compat/libc", src), "-o", o], timeout=300)
         objs.append(o)
     return ctx.cxx("drv_stdlib" + ("_alt" if alt else ""), ["drv_stdlib.cpp"], objs=objs, alt=alt)
 
